@@ -1,7 +1,8 @@
 """C03 (bounded): Sugar-family back ends — emitted CSP text and parsed replies are faithful."""
 PROP = "C03"
 LEVEL = "exploration"
-ENGINE = "bounded"
+ENGINE = "pyvc+bounded"
+HARNESS_MODULES = ["contracts.c03_sugar"]
 
 
 def bounded(tier, seed, rep):
@@ -25,8 +26,8 @@ RULE = ("the five real back-end classes are run end to end against stub external
         "every description received is parsed by the reference parser and compared with the Solver (declarations, domains, "
         "per-constraint denotation under ALL assignments, key line, entry point); plus crafted reply texts (all listed value "
         "combinations, line orders, decided-key subsets) for each back end; distinct = distinct (program, back end, mode)")
-TECHNIQUE = "contracts on the real SugarLikeBackend classes (emitted text denotes the program; replies are reflected into sol) evaluated end to end against a reference implementation of the protocol; bounded"
-LEVEL_TEXT = ("exploration: the real external solvers are not available offline and their correctness is outside the property; "
+TECHNIQUE = "pyvc: per-operator printer contract of _convert_expr/_convert_variable, description assembly, key line and reply-table contracts of SugarLikeBackend discharged by z3 (proved, all inputs); plus contracts on the real SugarLikeBackend classes (emitted text denotes the program; replies are reflected into sol) evaluated end to end against a reference implementation of the protocol; bounded"
+LEVEL_TEXT = ("exploration: the printer, declaration, description-assembly, key-line and reply-parsing contracts of sugar_like.py are proved by pyvc for all inputs; that the printed text DENOTES the constraint rests on the Sugar reference semantics and is bounded; the real external solvers are not available offline and their correctness is outside the property; "
               "cspuz's half (text emission, key line, entry point, reply parsing) is checked against the reference parser/printer on "
               "generated programs and crafted replies")
 LEVEL_NOTE = "trusted: specs/sugar_ref.py as the Sugar surface syntax and the Java reply formats (cannot be checked against real Sugar offline); specs/den.py"
